@@ -62,12 +62,12 @@ Record matcher_cfg := mkCfg {
 (* Type-aware matching consults go/types; it enters as an oracle. *)
 Record oracle := mkOracle {
   o_objof : val -> option Z;   (* TypesInfo.ObjectOf of an identifier node *)
-  (* kind, argument pattern, the node that passed the structural pre-match ->
+  (* kind, the node that passed the structural pre-match ->
      None: no match;  Some (res, None): match with result res;
      Some (res, Some v): match iff the argument pattern matches v *)
-  o_ta : string -> pat -> val -> option (val * option val)
+  o_ta : string -> val -> option (val * option val)
 }.
-Definition no_oracle : oracle := mkOracle (fun _ => None) (fun _ _ _ => None).
+Definition no_oracle : oracle := mkOracle (fun _ => None) (fun _ _ => None).
 
 (* result of a match step *)
 Inductive res (M : Type) :=
